@@ -307,6 +307,10 @@ def run(ctx):
 def classify_known(res):
     kind, mode, s, flags = res['item']
     m = e1.mod_of(mode)
+    win, _ci = mode_info(mode, flags)
+    if mode == 'gl' and win and len(s) >= 2 and s[0] in '/\\' and s[1] in '/\\' and res['status'] in ('differs', 'self_rejected'):
+        # a string that begins with two separators is read as a UNC prefix, which tolerates no duplicate separators inside it
+        return 'unc-shaped-string-duplicate-separators'
     if mode == 'gl' and s.endswith('\n') and res['status'] in ('differs', 'self_rejected'):
         # `$` inside _NO_DIR / path fragments also matches before a trailing newline (listed under C02)
         return 'trailing-newline-dollar'
